@@ -1,10 +1,12 @@
 from __future__ import annotations
 
-from typing import TYPE_CHECKING
+from typing import TYPE_CHECKING, Any, Callable, TypeVar
 
 import numpy as np
 from numpy.random import default_rng
 
+from ropt.enums import OptimizerExitCode
+from ropt.exceptions import OptimizationAborted
 from ropt.results import (
     ConstraintInfo,
     FunctionEvaluations,
@@ -31,6 +33,8 @@ from ._gradient import (
     _perturb_variables,
 )
 from ._utils import _get_failed_realizations
+
+_T = TypeVar("_T")
 
 if TYPE_CHECKING:
     from numpy.random import Generator
@@ -160,10 +164,12 @@ class EnsembleEvaluator:
     def _calculate_one_set_of_functions(
         self, f_eval_results: _FunctionEvaluatorResults, variables: NDArray[np.float64]
     ) -> FunctionResults:
-        (
-            objective_weights,
-            constraint_weights,
-        ) = self._calculate_filtered_realization_weights(f_eval_results)
+        weights = _none_if_too_few(
+            self._calculate_filtered_realization_weights, f_eval_results
+        )
+        objective_weights, constraint_weights = (
+            (None, None) if weights is None else weights
+        )
 
         assert self._config.gradient.perturbation_min_success is not None
         failed_realizations = _get_failed_realizations(
@@ -173,11 +179,12 @@ class EnsembleEvaluator:
         )
 
         assert self._config.realizations.realization_min_success is not None
-        if (
+        if weights is not None and (
             np.count_nonzero(~failed_realizations)
             >= self._config.realizations.realization_min_success
         ):
-            functions = self._compute_functions(
+            functions = _none_if_too_few(
+                self._compute_functions,
                 f_eval_results.objectives,
                 f_eval_results.constraints,
                 objective_weights,
@@ -255,7 +262,8 @@ class EnsembleEvaluator:
             np.count_nonzero(~failed_realizations)
             >= self._config.realizations.realization_min_success
         ):
-            gradients = self._compute_gradients(
+            gradients = _none_if_too_few(
+                self._compute_gradients,
                 variables,
                 mask,
                 perturbed_variables,
@@ -317,11 +325,11 @@ class EnsembleEvaluator:
             evaluation_info=f_eval_results.evaluation_info,
         )
 
-        (
-            objective_weights,
-            constraint_weights,
-        ) = self._calculate_filtered_realization_weights(
-            f_eval_results,
+        weights = _none_if_too_few(
+            self._calculate_filtered_realization_weights, f_eval_results
+        )
+        objective_weights, constraint_weights = (
+            (None, None) if weights is None else weights
         )
 
         assert self._config.gradient.perturbation_min_success is not None
@@ -331,11 +339,12 @@ class EnsembleEvaluator:
             self._config.gradient.perturbation_min_success,
         )
         assert self._config.realizations.realization_min_success is not None
-        if (
+        if weights is not None and (
             np.count_nonzero(~failed_realizations)
             >= self._config.realizations.realization_min_success
         ):
-            functions = self._compute_functions(
+            functions = _none_if_too_few(
+                self._compute_functions,
                 f_eval_results.objectives,
                 f_eval_results.constraints,
                 objective_weights,
@@ -369,11 +378,12 @@ class EnsembleEvaluator:
             self._config.gradient.perturbation_min_success,
         )
         assert self._config.realizations.realization_min_success is not None
-        if (
+        if weights is not None and (
             np.count_nonzero(~failed_realizations)
             >= self._config.realizations.realization_min_success
         ):
-            gradients = self._compute_gradients(
+            gradients = _none_if_too_few(
+                self._compute_gradients,
                 variables,
                 mask,
                 perturbed_variables,
@@ -616,6 +626,18 @@ class EnsembleEvaluator:
                 )
                 samplers.append(plugin.create(self._config, idx, variable_indices, rng))
         return samplers
+
+
+def _none_if_too_few(function: Callable[..., _T], *args: Any) -> _T | None:  # noqa: ANN401
+    # Realization filters and function estimators signal that too few
+    # realizations are left by aborting. Like when the number of successful
+    # realizations is below the threshold, this is reported by a missing result.
+    try:
+        return function(*args)
+    except OptimizationAborted as exc:
+        if exc.exit_code != OptimizerExitCode.TOO_FEW_REALIZATIONS:
+            raise
+        return None
 
 
 def _get_mask(
